@@ -201,6 +201,7 @@ var readerFns = []string{
 	"bitmap.Rank64", "bitmap.Rank128", "bitmap.Select32", "bitmap.Select32R64", "bitmap.NextOne", "bitmap.PrevOne",
 	"bitmap.Slice", "bitmap.ToArray", "bitmap.Get", "bitmap.Get1", "bitmap.Getw", "bitmap.SafeGet", "bitmap.FromStr32",
 	"bitmap.IndexRank64", "bitmap.IndexRank128", "bitmap.IndexSelect32", "bitmap.IndexSelect32R64", "bitmap.Join", "bitmap.Of",
+	"bitmap.OfMany", "bitmap.TailGet", "bitmap.Fmt",
 	"bmtree.PathToIndex", "bmtree.PathToIndexLoose", "bmtree.IndexToPath", "bmtree.AllPaths", "bmtree.Decode",
 	"bmtree.PathOf", "bmtree.PathsOf", "bmtree.PathLen", "bmtree.PathStr",
 	"bitstr.New", "bitstr.Len", "bitstr.Cmp", "bitstr.CmpUpto", "bitstr.StrCmpUpto",
@@ -208,7 +209,7 @@ var readerFns = []string{
 	"sigbits.FirstDiffBits", "sigbits.New", "sigbits.CountPrefixes", "sigbits.ShardByPrefix",
 }
 
-var fmtUsing = map[string]bool{"bmtree.PathStr": true}
+var fmtUsing = map[string]bool{"bmtree.PathStr": true, "bitmap.Fmt": true}
 
 // execOp performs one catalogue operation on the shared world. It never
 // touches harness state shared between tasks and uses neither fmt nor any
@@ -370,6 +371,18 @@ func execBitmap(w *world, op ROp, viaValue bool) (out rOutcome) {
 		}
 	case "bitmap.Of":
 		out.words = bitmap.Of(b.pos, int32(nbits))
+	case "bitmap.OfMany":
+		out.words = bitmap.OfMany(b.segs, b.sizes)
+	case "bitmap.TailGet":
+		// queries on a TailBitmap that nobody mutates any more
+		end := b.tail.Offset + 64*int64(len(b.tail.Words))
+		if end <= 0 {
+			return
+		}
+		j := mod(op.A, end)
+		out.ints = []int64{int64(b.tail.Get(j)), int64(b.tail.Get1(j))}
+	case "bitmap.Fmt":
+		out.strs = []string{bitmap.Fmt(b.words[mod(op.A, int64(len(b.words)))]), bitmap.Fmt(int32(op.B))}
 	default:
 		panic(engine.HarnessError{Msg: "unknown fn " + op.Fn})
 	}
@@ -430,7 +443,8 @@ func execBmtree(w *world, op ROp, viaValue bool) (out rOutcome) {
 		}
 	case "bmtree.PathLen":
 		p := m.paths[mod(op.A, np)]
-		out.ints = []int64{int64(bmtree.PathLen(p)), int64(bmtree.PathHeight(p)), int64(bmtree.PathBits(p)), int64(bmtree.PathMask(p))}
+		out.ints = []int64{int64(bmtree.PathLen(p)), int64(bmtree.PathHeight(p)), int64(bmtree.PathBits(p)), int64(bmtree.PathMask(p)), int64(bmtree.Height(m.mask)),
+			int64(bmtree.NewPath(bmtree.PathBits(p)>>uint(bmtree.PathHeight(p)-bmtree.PathLen(p)), bmtree.PathLen(p), h))}
 	case "bmtree.PathStr":
 		out.strs = []string{bmtree.PathStr(m.paths[mod(op.A, np)])}
 	default:
